@@ -20,6 +20,7 @@ const scMaxBind = 8
 type scScope struct {
 	names  [scMaxBind]rune
 	vals   [scMaxBind]float64
+	null   [scMaxBind]bool // the binding holds nil
 	isFn   [scMaxBind]int // index into scFns, or -1
 	n      int
 	parent int
@@ -33,6 +34,7 @@ var (
 	scNextV  float64
 	// expected output: values printed, in order; then possibly an error
 	scOut    [32]float64
+	scOutNil [32]bool
 	scOutN   int
 	scErr    bool
 	scFns    [4]*ast.FunctionStmt
@@ -73,11 +75,28 @@ func scHas(s int, name rune) bool {
 }
 
 func scBind(s int, name rune, v float64, fn int) {
+	scBindV(s, name, v, false, fn)
+}
+
+// litValue: (number, is-nil) of a literal or absent initialiser
+func litValue(e ast.Expr) (float64, bool) {
+	if e == nil {
+		return 0, true
+	}
+	l := e.(*ast.Literal)
+	if l.Value == nil {
+		return 0, true
+	}
+	return l.Value.(float64), false
+}
+
+func scBindV(s int, name rune, v float64, null bool, fn int) {
 	i := scScopes[s].n
 	if i >= scMaxBind {
 		verifAssume(false)
 	}
 	scScopes[s].names[i] = name
+	scScopes[s].null[i] = null
 	scScopes[s].vals[i] = v
 	scScopes[s].isFn[i] = fn
 	scScopes[s].n = i + 1
@@ -89,23 +108,24 @@ func nameOf(t token.Token) rune { return []rune(t.Lexeme)[0] }
 func scExec(st ast.Stmt, s int) bool {
 	switch n := st.(type) {
 	case *ast.VarStmt:
-		v := n.Initializer.(*ast.Literal).Value.(float64)
+		v, null := litValue(n.Initializer)
 		if scHas(s, nameOf(n.Name)) {
 			scErr = true
 			return false
 		}
-		scBind(s, nameOf(n.Name), v, -1)
+		scBindV(s, nameOf(n.Name), v, null, -1)
 		return true
 	case *ast.ExpressionStatement:
 		switch e := n.Expression.(type) {
 		case *ast.AssignmentStmt:
-			v := e.Value.(*ast.Literal).Value.(float64)
+			v, null := litValue(e.Value)
 			ts, ti := scLookup(s, nameOf(e.Name))
 			if ts < 0 {
 				scErr = true
 				return false
 			}
 			scScopes[ts].vals[ti] = v
+			scScopes[ts].null[ti] = null
 			scScopes[ts].isFn[ti] = -1
 			return true
 		case *ast.Call:
@@ -146,6 +166,7 @@ func scExec(st ast.Stmt, s int) bool {
 			verifAssume(false) // printing a function value: text not compared here
 		}
 		scOut[scOutN] = scScopes[ts].vals[ti]
+		scOutNil[scOutN] = scScopes[ts].null[ti]
 		scOutN++
 		return true
 	case *ast.BlockStmt:
@@ -212,6 +233,14 @@ func scLit() *ast.Literal {
 	return &ast.Literal{Value: scNextV, Line: scLine}
 }
 
+// scLitOrNil: a fresh number, or nil (a binding that holds nil is still a binding)
+func scLitOrNil() ast.Expr {
+	if verifChoice(3) == 2 {
+		return &ast.Literal{Value: nil, Line: scLine}
+	}
+	return scLit()
+}
+
 func genScopeStmt(depth int, inFn bool) ast.Stmt {
 	n := 3
 	if depth > 0 {
@@ -220,10 +249,13 @@ func genScopeStmt(depth int, inFn bool) ast.Stmt {
 	switch verifChoice(n) {
 	case 0:
 		nm := scName()
+		if verifChoice(3) == 2 {
+			return &ast.VarStmt{Name: nm, Line: nm.Line} // declaration without initialiser: nil
+		}
 		return &ast.VarStmt{Name: nm, Initializer: scLit(), Line: nm.Line}
 	case 1:
 		nm := scName()
-		return &ast.ExpressionStatement{Expression: &ast.AssignmentStmt{Name: nm, Value: scLit(), Line: nm.Line}}
+		return &ast.ExpressionStatement{Expression: &ast.AssignmentStmt{Name: nm, Value: scLitOrNil(), Line: nm.Line}}
 	case 2:
 		nm := scName()
 		return &ast.PrintStatement{Expression: &ast.Identifier{Name: nm, Line: nm.Line}}
@@ -278,8 +310,11 @@ func VH_scope(nstmt int, depth int) {
 			ok := k < scOutN
 			verifAssert("read-expected-by-the-scope-model", ok)
 			if ok {
-				verifDebug(verifEventText(i), fmt.Sprintf("%v\n", scOut[k]), scOut[k])
-				verifAssert("read-yields-the-innermost-visible-binding", verifEventText(i) == fmt.Sprintf("%v\n", scOut[k]))
+				if scOutNil[k] {
+					verifAssert("read-yields-the-innermost-visible-binding", verifEventText(i) == "nil\n")
+				} else {
+					verifAssert("read-yields-the-innermost-visible-binding", verifEventText(i) == fmt.Sprintf("%v\n", scOut[k]))
+				}
 			}
 			k++
 		case 2:
